@@ -22,6 +22,7 @@ func c02(p *core.Prog, r *core.Report) {
 	r.Rule("C02-R4", "E6 who-may-call + E2", 4, "pooled checksum objects are reset and not used after release")
 	r.Rule("C02-R5", "E1 constants", 4, "checksum registry agreement")
 	wireCodes(p, r, "C02-R5", "checksum")
+	checksumSizes(p, r, "C02-R5")
 	r.Rule("C02-R6", "E6 ordering", 2, "relay re-stamps continuation frames")
 	c02Writer(p, r)
 	c02Receiver(p, r)
@@ -247,6 +248,7 @@ func c02Receiver(p *core.Prog, r *core.Report) {
 }
 
 func c02Pool(p *core.Prog, r *core.Report) {
+	releasedByOwnersOnly(p, r, "C02-R4")
 	if f := mustFunc(p, r, "", "ChecksumType", "New"); f != nil {
 		ok := false
 		core.EachInstr(f, func(i ssa.Instruction) {
